@@ -116,7 +116,7 @@ func (w *pworld) drain(p *stepper.Peer, max int) bool {
 // the loop's writable event for the connection of p
 func (w *pworld) writable(p *stepper.Peer) bool {
 	if !p.EOF && w.s.L.IsOpen(p.ProxyFd) {
-		return guard(func() { w.s.L.Writable(p.ProxyFd) })
+		return guard(func() { w.s.L.Event(p.ProxyFd, false, true) })
 	}
 	return true
 }
